@@ -167,6 +167,8 @@ pub fn drive(corpus: &str, seed: u64, out: &str, thorough: bool) {
     "let é = foo(🦀x);\r\nfoo(é); foo(é, é);\r\n".replace("🦀x", "\"🦀\""),
     long.clone() + "\n" + &format!("bar({}foo(\"🦀\"));", " ".repeat(600)),
     "// nothing here\n".into(),
+    // a file that starts with a byte order mark (three bytes, one character): every offset and the columns of line 1 count it
+    "\u{feff}foo(1); foo(\"é\");\nbar(foo(2));\n".into(),
     // matches far apart: several separate groups of lines in the report, each with its own context lines
     "// l1\n// l2 é\nfoo(1);\n// l4\n// l5\n// l6\n// l7\n// l8 🦀\n// l9\nfoo(2);\n// l11\n// l12\n// l13\n// l14\nbar(foo(3),\n  foo(4));\n// l17".into(),
   ];
@@ -181,7 +183,7 @@ pub fn drive(corpus: &str, seed: u64, out: &str, thorough: bool) {
           continue; // the path:line:text report is the `sg run` report
         }
         // how many of the files match: choose file subsets
-        for subset in [vec![0usize], vec![5], vec![0, 5, 2], vec![1, 3, 4, 0], vec![5, 5], vec![6], vec![6, 2]] {
+        for subset in [vec![0usize], vec![5], vec![0, 5, 2], vec![1, 3, 4, 0], vec![5, 5], vec![7], vec![7, 2], vec![6], vec![6, 2]] {
           k += 1;
           if !thorough && k % 3 != (seed % 3) as usize {
             continue;
